@@ -145,5 +145,5 @@ pub fn fmt_dims(d: &[usize]) -> String {
 /// a few larger shapes (long last dimension, more elements than any lane width or block size a
 /// fast path is likely to use), added sparsely to the exhaustive small spaces
 pub fn long_shapes() -> Vec<Vec<usize>> {
-    vec![vec![5], vec![8], vec![9], vec![17], vec![33], vec![2, 9], vec![3, 1, 8], vec![2, 2, 17], vec![1, 16]]
+    vec![vec![5], vec![8], vec![9], vec![17], vec![33], vec![65], vec![2, 9], vec![3, 1, 8], vec![2, 2, 17], vec![1, 16], vec![3, 64]]
 }
